@@ -14,6 +14,7 @@ import (
 	"bytes"
 	"encoding/json"
 	"fmt"
+	"os"
 	"runtime"
 	"sort"
 	"strings"
@@ -224,6 +225,11 @@ func build(k *kase) (*types.Transaction, []*types.Transaction) {
 	}
 	if k.HdrParses && types.Decode(g.Txs[1].Header, &types.Transactions{}) != nil {
 		panic("group header does not parse although it was searched for")
+	}
+	if os.Getenv("VERIF_DEBUG") != "" {
+		for j, t := range g.Txs {
+			fmt.Printf("debug %s member %d: nonce=%d expire=%d fee=%d sigty=%d from=%s header=%x\n", k.Name, j, t.Nonce, t.Expire, t.Fee, t.Signature.Ty, t.From(), t.Header)
+		}
 	}
 	return g.Tx(), g.Txs
 }
@@ -438,6 +444,9 @@ type outcome struct {
 	Entered bool
 	Others  int // hashes in the pool afterwards that were neither there before nor the submission
 	Lost    int // hashes that left the pool
+	// HdrParses: the submission is a group whose 32-byte header hash decodes as a types.Transactions
+	// message (by search when the case asks for it, by accident for about 1 group in 500)
+	HdrParses bool
 }
 
 // run executes one case on a fresh node.
@@ -486,6 +495,7 @@ func run(k *kase) (outcome, []vio) {
 	n.cli.Send(msg, true)
 	resp, err := n.cli.Wait(msg)
 	var o outcome
+	o.HdrParses = len(parts) > 1 && types.Decode(parts[1].Header, &types.Transactions{}) == nil
 	if err != nil {
 		o.Msg = "wait: " + err.Error()
 	} else if rp, ok := resp.GetData().(*types.Reply); ok {
@@ -682,10 +692,11 @@ func main() {
 	r := vx.Start("C22", "exploration")
 	r.QuietStderr()
 	setup()
-	r.Rule = "every case = (shape: single / group of 2 / group of 3) x (member position) x (one admission clause violated, or its just-valid twin: signature, already in pool, on chain, height/time expiry edges, fee one unit below the minimum incl. a >1000-byte member and the tiered rate at the pool-size thresholds, two kinds of invalid recipient, sender at / one below the per-sender limit, blacklisted sender / recipient / EVM contract / EVM transfer target, eth-signed nonce below current / current / ahead / already pending) x (pool empty / one below capacity); one fresh mempool module per case, submission by EventTx. distinct = distinct (clause, position class, reply) outcome classes"
+	r.Rule = "every case = (shape: single / group of 2 / group of 3) x (member position) x (one admission clause violated, or its just-valid twin: signature, already in pool, on chain, height/time expiry edges, fee one unit below the minimum incl. a >1000-byte member and the tiered rate at the pool-size thresholds, two kinds of invalid recipient, sender at / one below the per-sender limit, blacklisted sender / recipient / EVM contract / EVM transfer target, eth-signed nonce below current / current / ahead / already pending; the expiry edges once more on groups whose 32-byte header hash is a well-formed protobuf message, the nonce of member 0 being searched for that) x (pool empty / one below capacity); thorough tier: additionally every pair of violating modifications at every pair of positions; one fresh mempool module per case, submission by EventTx. distinct = distinct (clause, position class, reply) outcome classes"
 	r.Assume = []string{
 		"blockchain (duplicate-on-chain query, last header), execs (CheckTx) and rpc (current eth nonce) are scripted responders on the real queue; what the real modules answer is outside this property",
 		"only the direction stated by the property is a violation (entered the pool although a clause is violated, or something else entered); a valid submission that is refused is reported as a vacuous twin (exit 2), not as a violation",
+		"'already in the pool' is read for the submission as a whole (its hash is in the pool); a group sharing non-head members with a pooled group is not generated",
 		"blacklisted 'real recipient' (para-chain payload recipient) is not generated: it only exists on a para-chain configuration",
 		"eth-native payloads (EVM plugin) are not generated; eth-signed means signature type secp256k1eth on a chain33-format transaction",
 		"header block time is 2100-01-01 so that the extra wall-clock rule in checkExpireValid (time expiry within the next minute) never decides",
@@ -709,7 +720,7 @@ func main() {
 			// every violated clause was not enforced: one finding per clause, classed by the kind of member it sits on
 			for _, v := range viol {
 				fp := "admit:" + v.Clause + ":" + class(k, v.Pos)
-				if k.HdrParses && strings.HasPrefix(v.Clause, "expired") {
+				if o.HdrParses && strings.HasPrefix(v.Clause, "expired") {
 					fp = "admit:expired:group-whose-header-hash-parses-as-a-group"
 				}
 				fs = append(fs, finding{fp, fmt.Sprintf("case %s: the submission entered the pool (reply ok=%v %q) although it violates: %s (member %d)", k.Name, o.Ok, o.Msg, v.Clause, v.Pos)})
